@@ -1025,8 +1025,8 @@ impl Databases {
         let sender = {
             let cluster_state = (*self).cluster_state.lock().unwrap();
             let members = cluster_state.members.lock().unwrap();
-            let old_member = members.get(name).unwrap();
-            old_member.sender.clone()
+            // The member may have left since the caller checked (its link thread removes it)
+            members.get(name).and_then(|old_member| old_member.sender.clone())
         };
         self.add_cluster_member(ClusterMember {
             name: name.clone(),
